@@ -18,7 +18,7 @@ EXPLANATION = (
     "is converted once, in Code/CodeCont mode; no wrapper when breaks are suppressed. (4) convert_args_in_math over child sequences of "
     "{argument, comma, semicolon, whitespace, comments}: a line comment keeps its line break also before the closing parenthesis. (5) convert_import with a comment before / after "
     "the colon and bare, parenthesised or wildcard items: a line comment is followed by a hard line break. Counterexamples are confirmed on a native "
-    "corpus of list constructs with comments (format then re-parse).")
+    "corpus of list constructs with comments (format then re-parse). Session 3: a literal that ends in a dot as bare field-access target; tokens printed next to each other form no comment delimiter; the output of whole documents (hand-written and generated families) parses (real parser on the text laid out by the interpreted renderer).")
 
 
 def run(S):
